@@ -1,6 +1,7 @@
 import Pamqp.Spec.Tables
 import Pamqp.Spec.Defs
 import Pamqp.Generated.Catalogue
+import Pamqp.Proofs.Validate
 /-!
 # C13 — argument validation accepts exactly the specified values, on send only
 -/
@@ -68,7 +69,17 @@ theorem C13_validate_iff (names : List String) (vals : List PyVal) (rules : List
     (Base.validate names vals rules = .error .valueError ↔
       ∃ r ∈ rules, broken (Base.lookupAttr names vals) r) ∧
     (Base.validate names vals rules = .ok () ∨ Base.validate names vals rules = .error .valueError) := by
-  sorry
+  refine Proofs.Validate.validate_iff names vals (typedFor (Base.lookupAttr names vals))
+    (broken (Base.lookupAttr names vals)) (fun r hr => ?_) rules ht
+  cases r with
+  | mustEqInt a c => exact Proofs.Validate.check_mustEqInt _ a c hr
+  | mustEqStr a c => exact Proofs.Validate.check_mustEqStr _ a c hr
+  | mustBeFalse a => exact Proofs.Validate.check_mustBeFalse _ a hr
+  | maxLen a n => exact Proofs.Validate.check_maxLen _ a n hr
+  | regex a d => exact Proofs.Validate.check_regex _ a d Spec.nameChars C13_char_class hr
+  | mustEqStrBare a c => exact Proofs.Validate.check_mustEqStrBare _ a c hr
+  | oneOf a cs => exact Proofs.Validate.check_oneOf _ a cs hr
+  | unrecognised src => exact absurd hr (by simp [typedFor])
 
 /-- encoding a method object re-validates: a broken constraint after construction makes
 `marshal` raise ValueError (validate runs before anything is encoded) -/
